@@ -246,6 +246,33 @@ def rotAllScriptL : Kids → List Nat
   | (_, t) :: r => rotAllScriptT false t ++ rotAllScriptL r
 end
 
+/- the numbers of neighbours of the nodes, in `Nodes()` order -/
+mutual
+def degsT (isRoot : Bool) : T → List Nat
+  | .node _ _ kids => (kids.length + (if isRoot then 0 else 1)) :: degsL kids
+def degsL : Kids → List Nat
+  | [] => []
+  | (_, t) :: r => degsT false t ++ degsL r
+end
+
+/-- give the neighbours of one node the arrangement `p` (a list of old positions) -/
+def permNode (isRoot : Bool) (t : T) (p : List Nat) : T :=
+  ofNeigh isRoot t (p.map fun q => (neighOf isRoot t).getD q none)
+
+/- give every node, in `Nodes()` order, the arrangement listed for it -/
+mutual
+def applyPermsT (isRoot : Bool) : T → List (List Nat) → T × List (List Nat)
+  | .node d p kids, ps =>
+    let r := applyPermsL kids (ps.drop 1)
+    (permNode isRoot (.node d p r.1) (ps.headD []), r.2)
+def applyPermsL : Kids → List (List Nat) → Kids × List (List Nat)
+  | [], ps => ([], ps)
+  | (e, t) :: r, ps =>
+    let a := applyPermsT false t ps
+    let b := applyPermsL r a.2
+    ((e, a.1) :: b.1, b.2)
+end
+
 /-- `gotree rotate rand` (cmd/rotate_rand.go): `RotateInternalNodes` on every tree of the input,
     in file order, the draws running on from one tree to the next -/
 def rotateRandCmd : List T → List Nat → List T
